@@ -6,7 +6,7 @@ LEVEL_TEXT = ('exploration: the invariant of the statement (one leading @charset
               'real objects after every operation of every operation sequence up to length 3 (quick) / 4 (thorough) over the stated pools, accepted and rejected edits alike')
 LEVEL_NOTE = ('bounded, not a proof: sequences are merged when they reach the same observable state (serialisation, kind tree, namespace mapping); the longest sequences use the smaller '
               'pools (list / core), the full pool (text forms, every index, nested lists, rule text) goes to length 2 (3 from the empty sheet in the thorough tier); rule objects have one '
-              'fixed text per kind; random walks (thorough only) are samples. Eight recorded findings are excluded by sharp classes (known/C09.json)')
+              'fixed text per kind; random walks (thorough only) are samples. Five recorded findings are excluded by sharp classes, two more were fixed in /repo while the check was built (known/C09.json)')
 TECHNIQUE = ('bounded run-time contracts over exhaustively enumerated edit histories on the real CSSStyleSheet/CSSMediaRule/CSSPageRule (breadth-first over distinct observable states, '
              'replay on fresh objects), seeded random walks of length 200 in the thorough tier; @import fetches answered by a fetcher returning None')
 DESIGN_REF = 'DESIGN.md section 3, C09; Appendix C operation pools'
@@ -17,3 +17,9 @@ def bounded(ctx):
     c09.sequences(ctx)
     c09.random_walks(ctx)
     c09.known_witnesses(ctx)
+
+
+# T1 (PyVC): the structural invariant (rule order, @charset first, parent links) is an inductive invariant of every edit under proof:
+# CSSStyleSheet.insertRule / deleteRule (rule objects; any sheet length; raising and logging mode; rejected edits change nothing)
+# and the nested rule lists of @media / @page (insertRule, _prepareInsertRule, _finishInsertRule, deleteRule).
+T1 = [('contracts.cssstylesheet', None), ('contracts.cssrule', None)]
